@@ -14,11 +14,14 @@ package main
 // fails if another non-test file of the package declares an operationType
 // literal (the table would be incomplete).
 import (
+	"crypto/sha256"
 	"fmt"
 	"go/ast"
+	"go/printer"
 	"go/token"
 	"os"
 	"path/filepath"
+	"regexp/syntax"
 	"strconv"
 	"strings"
 )
@@ -228,3 +231,453 @@ func genC09() {
 }
 
 func init() { extraGens = append(extraGens, genC09) }
+
+// ---------------------------------------------------------------------------
+// gen_c09 (lexer part): ordered rule list of pkg/yqlib/lexer_participle.go
+// -> coq/Gen/LexRules.v
+//
+// Each element of participleYqRules is either
+//	{"Name", `regex`, <action>, 0}          (strings: raw or interpreted literals)
+//	simpleOp("regex", xOpType)              name = ToUpper(regex[1]) + regex[1:]
+//	assignableOp("regex", xOpType, yOpType) same naming
+// and <action> is nil or a call of one of the token constructors listed in
+// lexAction below.  The regex is parsed with regexp/syntax (the parser Go's
+// regexp.Compile uses, Perl flags) and translated into the Coq AST of
+// Base/Regex.v over BYTES; any operator outside the translated subset
+// (anchors, repeats {n,m}, non-greedy, case folding, word boundaries,
+// back-references, a class cutting through the non-ASCII range) is a
+// translator failure.  The bodies of the token constructors are not
+// translated: their go/printer text is hashed and compared with the hashes of
+// the audited version, a changed constructor is a translator failure too.
+// ---------------------------------------------------------------------------
+
+func c09Regex(re *syntax.Regexp, ctx string) string {
+	if re.Flags&syntax.NonGreedy != 0 {
+		fail("%s: non-greedy operator", ctx)
+	}
+	seq := func(parts []string) string {
+		if len(parts) == 0 {
+			return "REps"
+		}
+		out := parts[len(parts)-1]
+		for i := len(parts) - 2; i >= 0; i-- {
+			out = "(RSeq " + parts[i] + " " + out + ")"
+		}
+		return out
+	}
+	switch re.Op {
+	case syntax.OpEmptyMatch:
+		return "REps"
+	case syntax.OpLiteral:
+		var parts []string
+		for _, r := range re.Rune {
+			if re.Flags&syntax.FoldCase != 0 {
+				// regexp/syntax writes [xX] as the literal x with the fold flag
+				if (r >= 'a' && r <= 'z') || (r >= 'A' && r <= 'Z') {
+					lo := r | 0x20
+					parts = append(parts, fmt.Sprintf("(RClass [(%d, %d); (%d, %d)]%%N)", lo-0x20, lo-0x20, lo, lo))
+					continue
+				}
+				if r >= 0x80 {
+					fail("%s: case folding of a non-ASCII literal", ctx)
+				}
+			}
+			for _, b := range []byte(string(r)) {
+				parts = append(parts, fmt.Sprintf("(RChar %d)", b))
+			}
+		}
+		return seq(parts)
+	case syntax.OpCharClass:
+		var rs []rng
+		for i := 0; i+1 < len(re.Rune); i += 2 {
+			lo, hi := int(re.Rune[i]), int(re.Rune[i+1])
+			if hi < 0x80 {
+				rs = append(rs, rng{lo, hi})
+				continue
+			}
+			// a range reaching into non-ASCII must cover all of it: then every byte >= 0x80 matches
+			if hi != 0x10FFFF || lo > 0x80 {
+				fail("%s: character class cuts through the non-ASCII range (%x-%x)", ctx, lo, hi)
+			}
+			if lo < 0x80 {
+				rs = append(rs, rng{lo, 0x7f})
+			}
+			rs = append(rs, rng{0x80, 0xff})
+		}
+		return "(RClass " + coqRanges(normRanges(rs)) + ")"
+	case syntax.OpAnyCharNotNL:
+		return "(RClass [(0, 9); (11, 255)]%N)"
+	case syntax.OpAnyChar:
+		return "(RClass [(0, 255)]%N)"
+	case syntax.OpCapture:
+		return c09Regex(re.Sub[0], ctx)
+	case syntax.OpStar:
+		return "(RStar " + c09Regex(re.Sub[0], ctx) + ")"
+	case syntax.OpPlus:
+		return "(RPlus " + c09Regex(re.Sub[0], ctx) + ")"
+	case syntax.OpQuest:
+		return "(ROpt " + c09Regex(re.Sub[0], ctx) + ")"
+	case syntax.OpConcat:
+		var parts []string
+		for _, s := range re.Sub {
+			parts = append(parts, c09Regex(s, ctx))
+		}
+		return seq(parts)
+	case syntax.OpAlternate:
+		out := c09Regex(re.Sub[len(re.Sub)-1], ctx)
+		for i := len(re.Sub) - 2; i >= 0; i-- {
+			out = "(RAlt " + c09Regex(re.Sub[i], ctx) + " " + out + ")"
+		}
+		return out
+	}
+	fail("%s: regex operator %v is outside the translated subset", ctx, re.Op)
+	return ""
+}
+
+func c09StrLit(e ast.Expr, what string) string {
+	lit, ok := e.(*ast.BasicLit)
+	if !ok || lit.Kind != token.STRING {
+		fail("lexer_participle.go: %s is not a string literal", what)
+	}
+	v, err := strconv.Unquote(lit.Value)
+	if err != nil {
+		fail("lexer_participle.go: %s: %v", what, err)
+	}
+	return v
+}
+
+func c09Ident(e ast.Expr, what string) string {
+	id, ok := e.(*ast.Ident)
+	if !ok {
+		fail("lexer_participle.go: %s is not an identifier", what)
+	}
+	return id.Name
+}
+
+func c09Bool(e ast.Expr, what string) bool {
+	n := c09Ident(e, what)
+	if n != "true" && n != "false" {
+		fail("lexer_participle.go: %s is not a boolean literal", what)
+	}
+	return n == "true"
+}
+
+func c09OptStr(s string) string {
+	if s == "" {
+		return "None"
+	}
+	return "(Some " + coqStrBytes(s) + ")"
+}
+
+// audited token constructors: go/printer text -> sha256 (see lexHelperDigests)
+var lexHelpers = []string{"simpleOp", "assignableOp", "pathToken", "recursiveDecentOpToken", "opTokenWithPrefs", "expressionOpToken",
+	"flattenWithDepth", "assignAllCommentsOp", "assignOpToken", "booleanValue", "nullValue", "stringValue", "envOp", "envSubstWithOptions",
+	"multiplyWithPrefs", "getVariableOpToken", "hexValue", "floatValue", "numberValue", "parentWithLevel", "parentWithDefaultLevel",
+	"encodeParseIndent", "encodeWithIndent", "decodeOp", "loadOp", "opToken", "literalToken", "getYqDefinition", "Tokenise", "newParticipleLexer"}
+
+func c09FuncDigest(fset *token.FileSet, f *ast.File, name string) string {
+	for _, d := range f.Decls {
+		if fd, ok := d.(*ast.FuncDecl); ok && fd.Name.Name == name {
+			var b strings.Builder
+			if err := printer.Fprint(&b, fset, fd); err != nil {
+				fail("print %s: %v", name, err)
+			}
+			return fmt.Sprintf("%x", sha256.Sum256([]byte(b.String())))
+		}
+	}
+	fail("lexer_participle.go: func %s not found", name)
+	return ""
+}
+
+// lexAction translates the third element of a rule.
+func c09LexAction(e ast.Expr, rule string, known map[string]bool) string {
+	if id, ok := e.(*ast.Ident); ok && id.Name == "nil" {
+		return "ASkip"
+	}
+	call, ok := e.(*ast.CallExpr)
+	if !ok {
+		fail("lexer_participle.go: rule %s: action is neither nil nor a call", rule)
+	}
+	fn := c09Ident(call.Fun, "rule "+rule+" action")
+	args := call.Args
+	need := func(n int) {
+		if len(args) != n {
+			fail("lexer_participle.go: rule %s: %s takes %d arguments here, %d expected", rule, fn, len(args), n)
+		}
+	}
+	opvar := func(e ast.Expr) string {
+		n := c09Ident(e, "rule "+rule+" operation type")
+		if !known[n] {
+			fail("lexer_participle.go: rule %s: %s is not an operationType of operation.go", rule, n)
+		}
+		return n
+	}
+	mk := func(v, assign, cpt, val string) string {
+		return fmt.Sprintf("AOp %s %s %s %s", coqStrBytes(v), c09OptStr(assign), cpt, val)
+	}
+	switch fn {
+	case "opToken":
+		need(1)
+		return mk(opvar(args[0]), "", "CTable", "VNone")
+	case "opTokenWithPrefs":
+		need(3)
+		v := opvar(args[0])
+		assign := ""
+		if !isIdent(args[1], "nil") {
+			assign = opvar(args[1])
+		}
+		val := "VNone"
+		if !isIdent(args[2], "nil") {
+			cl, ok := args[2].(*ast.CompositeLit)
+			if !ok {
+				fail("lexer_participle.go: rule %s: preferences are not a composite literal", rule)
+			}
+			tn := c09Ident(cl.Type, "rule "+rule+" preferences type")
+			switch tn {
+			case "compareTypePref":
+				oe, gr := false, false
+				for _, el := range cl.Elts {
+					kv, ok := el.(*ast.KeyValueExpr)
+					if !ok {
+						fail("lexer_participle.go: rule %s: positional compareTypePref", rule)
+					}
+					switch c09Ident(kv.Key, "compareTypePref field") {
+					case "OrEqual":
+						oe = c09Bool(kv.Value, "OrEqual")
+					case "Greater":
+						gr = c09Bool(kv.Value, "Greater")
+					default:
+						fail("lexer_participle.go: rule %s: unknown compareTypePref field", rule)
+					}
+				}
+				s := "l"
+				if gr {
+					s = "g"
+				}
+				if oe {
+					s += "e"
+				} else {
+					s += "t"
+				}
+				val = "(VFixed " + coqStrBytes(s) + ")"
+			case "commentOpPreferences", "assignVarPreferences", "flattenPreferences", "changeCasePrefs":
+			default:
+				fail("lexer_participle.go: rule %s: unknown preferences type %s", rule, tn)
+			}
+		}
+		return mk(v, assign, "CTable", val)
+	case "literalToken":
+		need(2)
+		tt := c09Ident(args[0], "token type")
+		switch tt {
+		case "openBracket", "closeBracket", "openCollect", "closeCollect", "openCollectObject", "closeCollectObject", "traverseArrayCollect":
+		default:
+			fail("lexer_participle.go: rule %s: unknown token type %s", rule, tt)
+		}
+		return fmt.Sprintf("ALiteral LT_%s %v", tt, c09Bool(args[1], "checkForPost"))
+	case "recursiveDecentOpToken":
+		need(1)
+		c09Bool(args[0], "includeMapKeys")
+		return mk("recursiveDescentOpType", "", "CTable", "VNone")
+	case "getVariableOpToken":
+		need(0)
+		return mk("getVariableOpType", "", "CTrue", "VVar")
+	case "flattenWithDepth":
+		need(0)
+		return mk("flattenOpType", "", "CTable", "VNone")
+	case "expressionOpToken":
+		need(1)
+		c09StrLit(args[0], "expression")
+		return mk("expressionOpType", "", "CFalse", "VNone")
+	case "encodeParseIndent":
+		need(1)
+		return mk("encodeOpType", "", "CFalse", "VNone")
+	case "encodeWithIndent":
+		need(2)
+		return mk("encodeOpType", "", "CTable", "VNone")
+	case "decodeOp":
+		need(1)
+		return mk("decodeOpType", "", "CTable", "VNone")
+	case "loadOp":
+		need(1)
+		return mk("loadOpType", "", "CTable", "VNone")
+	case "parentWithLevel", "parentWithDefaultLevel":
+		need(0)
+		return mk("getParentOpType", "", "CTrue", "VNone")
+	case "assignAllCommentsOp":
+		need(1)
+		c09Bool(args[0], "updateAssign")
+		return mk("assignCommentOpType", "", "CFalse", "VNone")
+	case "assignOpToken":
+		need(1)
+		if c09Bool(args[0], "updateAssign") {
+			return mk("assignOpType", "", "CFalse", "(VFixed "+coqStrBytes("u")+")")
+		}
+		return mk("assignOpType", "", "CFalse", "(VFixed [])")
+	case "hexValue", "floatValue", "numberValue", "nullValue":
+		need(0)
+		return mk("valueOpType", "", "CFalse", "VText")
+	case "booleanValue":
+		need(1)
+		c09Bool(args[0], "val")
+		return mk("valueOpType", "", "CFalse", "VText")
+	case "stringValue":
+		need(0)
+		return mk("stringInterpolationOpType", "", "CFalse", "VString")
+	case "envOp":
+		need(1)
+		c09Bool(args[0], "strenv")
+		return mk("envOpType", "", "CTable", "VNone")
+	case "envSubstWithOptions":
+		need(0)
+		return mk("envsubstOpType", "", "CFalse", "VNone")
+	case "multiplyWithPrefs":
+		need(1)
+		return mk(opvar(args[0]), "", "CFalse", "VNone")
+	case "pathToken":
+		need(1)
+		if c09Bool(args[0], "wrapped") {
+			return mk("traversePathOpType", "", "CTrue", "(VPath true)")
+		}
+		return mk("traversePathOpType", "", "CTrue", "(VPath false)")
+	}
+	fail("lexer_participle.go: rule %s: unknown token constructor %s", rule, fn)
+	return ""
+}
+
+func genC09Lexer() {
+	// operation types known to operation.go
+	_, fop := parseFile("pkg/yqlib/operation.go")
+	known := map[string]bool{}
+	for _, d := range fop.Decls {
+		if gd, ok := d.(*ast.GenDecl); ok && gd.Tok == token.VAR {
+			for _, s := range gd.Specs {
+				for _, n := range s.(*ast.ValueSpec).Names {
+					known[n.Name] = true
+				}
+			}
+		}
+	}
+	fset, f := parseFile("pkg/yqlib/lexer_participle.go")
+	for _, h := range lexHelpers {
+		got := c09FuncDigest(fset, f, h)
+		if want, ok := lexHelperDigests[h]; !ok || want != got {
+			fail("lexer_participle.go: token constructor %s differs from the audited version (sha256 %s): re-audit lexAction and Model/Lexer.v", h, got)
+		}
+	}
+	var list *ast.CompositeLit
+	for _, d := range f.Decls {
+		gd, ok := d.(*ast.GenDecl)
+		if !ok || gd.Tok != token.VAR {
+			continue
+		}
+		for _, s := range gd.Specs {
+			vs := s.(*ast.ValueSpec)
+			for i, n := range vs.Names {
+				if n.Name == "participleYqRules" && i < len(vs.Values) {
+					cl, ok := vs.Values[i].(*ast.CompositeLit)
+					if !ok {
+						fail("lexer_participle.go: participleYqRules is not a composite literal")
+					}
+					list = cl
+				}
+			}
+		}
+	}
+	if list == nil {
+		fail("lexer_participle.go: participleYqRules not found")
+	}
+	type lrule struct{ name, pattern, re, action string }
+	var rules []lrule
+	names := map[string]bool{}
+	for idx, el := range list.Elts {
+		var r lrule
+		switch x := el.(type) {
+		case *ast.CompositeLit:
+			if x.Type != nil || len(x.Elts) != 4 {
+				fail("lexer_participle.go: rule #%d is not a 4-element literal", idx)
+			}
+			r.name = c09StrLit(x.Elts[0], fmt.Sprintf("rule #%d name", idx))
+			r.pattern = c09StrLit(x.Elts[1], "rule "+r.name+" pattern")
+			if lit, ok := x.Elts[3].(*ast.BasicLit); !ok || lit.Value != "0" {
+				fail("lexer_participle.go: rule %s: fourth element is not 0", r.name)
+			}
+			r.action = c09LexAction(x.Elts[2], r.name, known)
+		case *ast.CallExpr:
+			fn := c09Ident(x.Fun, fmt.Sprintf("rule #%d", idx))
+			if fn == "simpleOp" && len(x.Args) == 2 {
+				r.pattern = c09StrLit(x.Args[0], "simpleOp pattern")
+				v := c09Ident(x.Args[1], "simpleOp operation type")
+				if !known[v] {
+					fail("lexer_participle.go: simpleOp(%q): unknown operation type %s", r.pattern, v)
+				}
+				r.action = fmt.Sprintf("AOp %s None CTable VNone", coqStrBytes(v))
+			} else if fn == "assignableOp" && len(x.Args) == 3 {
+				r.pattern = c09StrLit(x.Args[0], "assignableOp pattern")
+				v, a := c09Ident(x.Args[1], "assignableOp operation type"), c09Ident(x.Args[2], "assignableOp assign type")
+				if !known[v] || !known[a] {
+					fail("lexer_participle.go: assignableOp(%q): unknown operation type", r.pattern)
+				}
+				r.action = fmt.Sprintf("AOp %s %s CTable VNone", coqStrBytes(v), c09OptStr(a))
+			} else {
+				fail("lexer_participle.go: rule #%d: unknown rule constructor %s/%d", idx, fn, len(x.Args))
+			}
+			if len(r.pattern) < 2 {
+				fail("lexer_participle.go: simpleOp pattern %q too short", r.pattern)
+			}
+			r.name = strings.ToUpper(string(r.pattern[1])) + r.pattern[1:]
+		default:
+			fail("lexer_participle.go: rule #%d has an unknown shape %T", idx, el)
+		}
+		if r.name == "" || names[r.name] {
+			fail("lexer_participle.go: empty or duplicate rule name %q", r.name)
+		}
+		names[r.name] = true
+		for i := 0; i+1 < len(r.pattern); i++ {
+			if r.pattern[i] == '\\' {
+				if r.pattern[i+1] >= '1' && r.pattern[i+1] <= '9' {
+					fail("lexer_participle.go: rule %s: back-reference", r.name)
+				}
+				i++
+			}
+		}
+		// exactly what participle compiles, minus the leading anchor (the model matches at the current position)
+		re, err := syntax.Parse("(?:"+r.pattern+")", syntax.Perl)
+		if err != nil {
+			fail("lexer_participle.go: rule %s: %v", r.name, err)
+		}
+		r.re = c09Regex(re, "rule "+r.name)
+		rules = append(rules, r)
+	}
+	if len(rules) == 0 {
+		fail("lexer_participle.go: no rules")
+	}
+	var b strings.Builder
+	b.WriteString("(* GENERATED by harness/cmd/gentables (gen_c09.go) from /repo/pkg/yqlib/lexer_participle.go — do not edit.\n")
+	b.WriteString("   participleYqRules in source order: name, regex (over bytes), elided by participle (lower-case name), token action. *)\n")
+	b.WriteString("From YQ Require Import Base.Str Base.Regex.\n\n")
+	b.WriteString("Inductive ltoktype := LT_openBracket | LT_closeBracket | LT_openCollect | LT_closeCollect\n  | LT_openCollectObject | LT_closeCollectObject | LT_traverseArrayCollect.\n")
+	b.WriteString("(* StringValue as far as the tree dump keeps it: none / the matched text / path element (wrapped in quotes or not)\n   / variable name / quoted string / a fixed tag *)\n")
+	b.WriteString("Inductive lval := VNone | VText | VPath (wrapped : bool) | VVar | VString | VFixed (s : str).\n")
+	b.WriteString("(* CheckForPostTraverse of the token: the operation type's flag / true / false *)\n")
+	b.WriteString("Inductive lcpt := CTable | CTrue | CFalse.\n")
+	b.WriteString("Inductive laction :=\n| ASkip                                   (* CreateYqToken == nil *)\n| ALiteral (tt : ltoktype) (cpt : bool)   (* literalToken *)\n")
+	b.WriteString("| AOp (var : str) (assign : option str) (cpt : lcpt) (val : lval).\n\n")
+	b.WriteString("Record lrule := mk_lrule { lr_name : str; lr_re : regex; lr_elide : bool; lr_action : laction }.\n\n")
+	b.WriteString("Definition lex_rules : list lrule := [\n")
+	for i, r := range rules {
+		sep := ";"
+		if i == len(rules)-1 {
+			sep = ""
+		}
+		elide := r.name[0] >= 'a' && r.name[0] <= 'z'
+		if r.name[0] >= 0x80 {
+			fail("lexer_participle.go: rule %s: non-ASCII rule name", r.name)
+		}
+		fmt.Fprintf(&b, "  (* %d %s *)\n  mk_lrule %s\n    %s\n    %v (%s)%s\n", i, strings.ReplaceAll(strings.ReplaceAll(r.name, "*)", "* )"), "(*", "( *"), coqStrBytes(r.name), r.re, elide, r.action, sep)
+	}
+	b.WriteString("].\n")
+	writeIfChanged("LexRules.v", b.String())
+}
+
+func init() { extraGens = append(extraGens, genC09Lexer) }
